@@ -73,6 +73,7 @@ struct Slots
    double                            d[NS] = { 0, 0, 0, 0 };
    std::string                       s[NS];
    std::optional<int>                oi[NS];
+   std::optional<bool>               ob[NS];   // a flag whose destination is an optional
    std::optional<std::string>        os[NS];
    std::vector<int>                  vi[NS];
    std::vector<std::string>          vs[NS];
@@ -166,6 +167,7 @@ void initSlot(Slots& S, const std::string& slot, const std::vector<std::string>&
    else if (k == "d") S.d[n] = std::stod(init.at(0));
    else if (k == "s") S.s[n] = vf::unhexs(init.at(0));
    else if (k == "oi") S.oi[n] = std::stoi(init.at(0));
+   else if (k == "ob") S.ob[n] = init.at(0) == "1";
    else if (k == "os") S.os[n] = vf::unhexs(init.at(0));
    else if (k == "vi") S.vi[n] = ints();
    else if (k == "vs") { for (auto& x : init) S.vs[n].push_back(vf::unhexs(x)); }
@@ -216,6 +218,7 @@ TypedArgBase* bindSlot(Slots& S, const std::string& slot)
    if (k == "d") return pa::destination(S.d[n], slot);
    if (k == "s") return pa::destination(S.s[n], slot);
    if (k == "oi") return pa::destination(S.oi[n], slot);
+   if (k == "ob") return pa::destination(S.ob[n], slot);
    if (k == "os") return pa::destination(S.os[n], slot);
    if (k == "vi") return pa::destination(S.vi[n], slot);
    if (k == "vs") return pa::destination(S.vs[n], slot);
@@ -259,6 +262,7 @@ std::string dumpSlot(Slots& S, const std::string& slot)
    if (k == "d") { std::snprintf(buf, sizeof buf, "%a", S.d[n]); return buf; }
    if (k == "s") return "s" + vf::hex(S.s[n]);
    if (k == "oi") return S.oi[n] ? std::to_string(*S.oi[n]) : "none";
+   if (k == "ob") return S.ob[n] ? (*S.ob[n] ? "1" : "0") : "none";
    if (k == "os") return S.os[n] ? "s" + vf::hex(*S.os[n]) : "none";
    if (k == "vi") return joinInts(S.vi[n]);
    if (k == "vs") { std::string r = "["; for (size_t j = 0; j < S.vs[n].size(); ++j) r += (j ? "," : "") + ("s" + vf::hex(S.vs[n][j])); return r + "]"; }
